@@ -14,7 +14,8 @@ BINS = ["c01"]
 NEEDS_CICADA = True
 ALLOWED_AXIOMS = []
 PINNED = ["C01_tokenize", "C01_tokenize_escaped", "C01_tokenize_mixed", "C01_plan_mixed_partial", "C01_plan_quoted", "C01_plan_full", "C01_post_passes", "C01_split", "C01_esc_refuted",
-          "C01_is_an_env_is_source_regex", "C01_split_env_is_source_regex", "C01_redir_fd_is_source_regex", "C01_redir_gt_is_source_regex"]
+          "C01_is_an_env_is_source_regex", "C01_split_env_is_source_regex", "C01_redir_fd_is_source_regex", "C01_redir_gt_is_source_regex",
+          "C01_redir_ptn1_is_source_regex", "C01_redir_ptn2_is_source_regex", "C01_is_arithmetic_is_source_regex"]
 TRUSTED = [
     "Coq 8.16.1 kernel; vm_compute in witnesses/examples only",
     "hand transcription of parse_line / is_arithmetic (Model/Tokenizer.v), tokens_to_redirections, from_tokens, "
@@ -32,6 +33,7 @@ def gen(ctx=None):
     Proofs/ParserLineRegexProofs.v)"""
     import regexsites
     regexsites.gen_parser_line()
+    regexsites.gen_tools()
 
 
 META = list("|&;<>()$`\\\"'*?[]{},~#!=%^")
